@@ -54,6 +54,9 @@ CLAIMS = {
  'C12': dict(technique="runtime monitoring: one generated description rendered as an instantiation tree and as inlined logic, both executed by vsim under identical input sequences with an online output comparator; parsed text checked against the generator's port and wiring tables",
              text="Exploration: random trees depth <=3, repeated templates, whole/slice/element/view actuals, instances inside contexts, shuffled keyword order; 68 (thorough 208) clocks per design; entity interface, template count, emission order and every port map compared with the declared tables.",
              ref="2 C12"),
+ 'C20': dict(technique="runtime monitoring: compiled register maps executed by vsim under a hostile AXI4-Lite master BFM; online per-clock protocol automata on the five channels, exactly-once accounting, prefix-consistency oracle against a register-map reference model for read data and hardware-visible storage, notification counting, exact read-back at quiescence",
+             text="Exploration: random layouts (MemWord, Word, Register fields/flags/notifications, Array, nested RegFile, Memory x 4 mask modes x inline, Input/Output; gaps, non power-of-two and unaligned ranges) x master profiles (blocking, pipelined, AW-first, W-first, slow readies, random) with per-clock random valid/ready timing, partial strobes, unmapped addresses, reads racing writes.",
+             ref="2 C20"),
  'C17': dict(technique="runtime monitoring: seeded type compositions compiled into round-trip entities executed by vsim over all bit patterns; an independent recursive layout calculator is the oracle for every leaf offset",
              text="Exploration: random compositions (arrays, nested/inherited/templated records, enums, fixed point, Serialized container, BitField) nesting <=3; all bit patterns for widths <=12; to_bits/from_bits identities and per-leaf offsets.",
              ref="2 C17"),
